@@ -43,10 +43,12 @@ func runC06(c *Ctx) {
 	if c.Only != "" { // replay of a client-level scenario
 		c06ClientPart(c, true)
 		c06ClientPart(c, false)
+		c06InFlight(c)
 		return
 	}
 	c06ParserPart(c)
 	c06ClientPart(c, false)
+	c06InFlight(c)
 	deferred := c06ReadPacketPart(c)
 	// last shard only, at the very end: the inputs a defective library may die on
 	c06ClientPart(c, true)
